@@ -126,6 +126,24 @@ def frobenius_alias(prog, level):
     return dict(H.stats(), paths=len(res), sample="%s::frobenius_map out=a, %d residue classes" % (CLASS[level], period))
 
 
+def include_in(chk):
+    """this check's obligations registered inside a check of a layer above (framework.Check.include): everything except the two scalar-multiplication
+    loops with result == base (a minute each; they stay in C18 and C06)"""
+    prog = build.load_program("A", files=["src/bls12_381/fq2.cpp", "src/bls12_381/fq6.cpp", "src/bls12_381/fq12.cpp", "src/bls12_381/fq.cpp",
+                                           "src/bls12_381/fq12_cyclotomic.cpp", "src/bls12_381/curve.cpp", "src/bls12_381/curve_fast_multiply.cpp",
+                                           "src/bls12_381/pairing.cpp", "src/bls12_381/bls12_381.cpp"], tag="c18")
+    prog.demangle_all()
+    chk.replayer = c04.replay_tower
+    register(chk, prog)
+    import c18_words
+    import c02
+    for cfg in ("A", "P64") + (("P32",) if chk.tier == "thorough" else ()):
+        c02.prog_for(cfg)
+    c18_words.register(chk)
+    import c18_more
+    c18_more.register(chk, heavy=False)
+
+
 def main(argv=None):
     chk = Check("C18", "proof", argv)
     def replayer(res):
